@@ -113,10 +113,31 @@ def run_life_case(case, res):
         return
     hist = make_sim(kind, cfg)
     failed_here = 0
-    for t in case["history"]:
+    poke = case.get("poke_steps") or []
+
+    def poke_it():
+        # done queries and step() calls between the loads: while no instruction has executed the simulation
+        # "has not started", and whatever these calls found (empty memory, a faulting first instruction) must not
+        # stick to it
+        try:
+            hist.is_done()
+            hist.step()
+            hist.is_done()
+        except Exception:
+            pass
+        res.count("queries_and_steps_between_loads")
+
+    if poke and poke[0]:
+        poke_it()
+    for hi_, t in enumerate(case["history"]):
         if safe_load(hist, t) is not None:
             res.count("failed_loads_in_history")
             failed_here += 1
+        if hi_ + 1 < len(poke) and poke[hi_ + 1]:
+            poke_it()
+    if poke and getattr(hist, "has_started", False):
+        res.count("history_started_the_simulation")
+        return  # an instruction executed: the simulation has started, reload == fresh load is not claimed for it
     e1 = safe_load(hist, text)
     if case.get("final_bad"):
         # the final load itself fails: a failed load, too, must leave the same state as the same failed load into a
@@ -346,10 +367,17 @@ def gen_life_case(rng):
         history = [rng.choice(BAD_TEXTS_TOY) if rng.random() < 0.5 else T.gen_source(rng)["text"] for _ in range(rng.choice([0, 1, 2, 3, 5]))]
         if rng.random() < 0.2:
             history.insert(rng.randint(0, len(history)), text)
+        toy_poke = None
+        if rng.random() < 0.25:
+            history = [rng.choice(BAD_TEXTS_TOY + ["", "# nothing", ".data\nv: .word 3, 4"]) for _ in range(rng.randint(0, 4))]
+            toy_poke = [rng.random() < 0.7 for _ in range(len(history) + 1)]
         # TOY programs may loop: bound the steps; after_done only reached when done
         if rng.random() < 0.15:
             return {"kind": "life", "sim": "toy", "cfg": {}, "text": rng.choice(BAD_TEXTS_TOY), "regs": {}, "terminal": "bad", "final_bad": True, "history": history or [T.gen_source(rng)["text"]], "max_steps": 10, "after_done": []}
-        return {"kind": "life", "sim": "toy", "cfg": {}, "text": text, "regs": {}, "terminal": terminal, "history": history, "max_steps": 300, "after_done": [rng.choice(["step", "run", "first", "second", "single"]) for _ in range(4)]}
+        c_ = {"kind": "life", "sim": "toy", "cfg": {}, "text": text, "regs": {}, "terminal": terminal, "history": history, "max_steps": 300, "after_done": [rng.choice(["step", "run", "first", "second", "single"]) for _ in range(4)]}
+        if toy_poke:
+            c_["poke_steps"] = toy_poke
+        return c_
     prog, regs, terminal = gen_rv_program(rng)
     cfg = {"hz": rng.random() < 0.8, "dcache": rand_cache(rng), "icache": rand_cache(rng, data=False)}
     text = asm_text(prog)
@@ -363,9 +391,18 @@ def gen_life_case(rng):
         history.insert(rng.randint(0, len(history)), text)  # the very same text was loaded before (editor re-assembles)
     if rng.random() < 0.15:
         cfg["via_state"] = rng.choice(["default", "matching"])
+    poke_steps = None
+    if rng.random() < 0.3:
+        # histories of programs that do not start the simulation (empty / data only / malformed / first instruction
+        # faults in the very first step), with done queries and step() calls in between
+        history = [rng.choice(BAD_TEXTS_RV + ["", "# nothing", ".data\nq: .word 1, 2", "lw x1, 0(x0)\naddi x2, x0, 1", "addi a7, x0, 0\necall", "ecall\nnop", "fence x0, x0", "ebreak"]) for _ in range(rng.randint(0, 4))]
+        poke_steps = [rng.random() < 0.7 for _ in range(len(history) + 1)]
     if rng.random() < 0.15:
         return {"kind": "life", "sim": kind, "cfg": cfg, "text": rng.choice(BAD_TEXTS_RV), "regs": {}, "terminal": "bad", "final_bad": True, "history": history or [text], "max_steps": 10, "after_done": []}
-    return {"kind": "life", "sim": kind, "cfg": cfg, "text": text, "regs": regs, "terminal": terminal, "history": history, "max_steps": 700, "after_done": [rng.choice(["step", "run", "step"]) for _ in range(4)]}
+    case = {"kind": "life", "sim": kind, "cfg": cfg, "text": text, "regs": regs, "terminal": terminal, "history": history, "max_steps": 700, "after_done": [rng.choice(["step", "run", "step"]) for _ in range(4)]}
+    if poke_steps:
+        case["poke_steps"] = poke_steps
+    return case
 
 
 OVERSIZED_RV = "\n".join(["addi x1, x1, 1"] * 4100)  # fails after 4096 instructions have been written
